@@ -130,9 +130,15 @@ def verify(body, inputs_of=None, replay=None, check_side=True, timeout_ms=30000,
                 cond = gl.cond
                 if isinstance(cond, bool):
                     cond = sym.SBool(z3.BoolVal(cond))
-                verdict, info = c.prove(cond, timeout_ms=timeout_ms)
+                if len(failures) >= 5:
+                    # the obligation is refuted already and only five failures are reported: the rest is not attempted
+                    unknowns.append({"goal": gl.label, "note": "not attempted after five refuted goals"})
+                    continue
+                # once a goal is refuted the verdict of the obligation is settled; further goals get a short budget
+                verdict, info = c.prove(cond, timeout_ms=timeout_ms if not failures else min(timeout_ms, 3000),
+                                        guided=not failures)
                 backend = "z3"
-                if verdict == "unknown":
+                if verdict == "unknown" and not failures:
                     v2 = _cvc5_try(c, cond, timeout_ms)
                     if v2 is not None:
                         verdict, info, backend = v2[0], v2[1], "cvc5"
